@@ -999,7 +999,10 @@ def run(ctx):
             mismatches.setdefault(fam, []).append(dict(line=lines[idx][:600], model=m_cmp[:600], impl=rstr[:600]))
         if idx < n_corpus and corpus[idx][2] is not None and corpus[idx][2] != rstr:
             mismatches.setdefault(fam, []).append(dict(line=lines[idx][:600], corpus_expect=corpus[idx][2], impl=rstr[:600]))
-        fail = check_property(dom, toks, kind, val)
+        try:
+            fail = check_property(dom, toks, kind, val)
+        except Exception as e:  # noqa: BLE001 - the real code raised inside a clause (e.g. the rpolynomial round trip): an observation, not a crash
+            fail = (f"{cmd}:clause-evaluation-raises-{type(e).__name__}", cmd, repr(e)[:200])
         if fail is not None:
             sig, ffam, what = fail
             cur = failures.get(sig)
@@ -1016,7 +1019,10 @@ def run(ctx):
         ctx.obligation(f"correspondence:Poly:{fam}(model == real code on every symbolic and rational case)", ok, kind="correspondence")
         if not ok:
             items[fam] = ctx.broken(f"correspondence:Poly:{fam}", json.dumps(mismatches[fam][:3]))
-    okn, detail = numpy_context_check(ctx)
+    try:
+        okn, detail = numpy_context_check(ctx)
+    except Exception as e:  # noqa: BLE001 - the real functions raised on a well-formed call with the NumpyContext
+        okn, detail = False, [("raises", type(e).__name__, repr(e)[:200])]
     ctx.obligation("context: Fraction/duck context agrees with the repo's NumpyContext(float64) on exactly representable inputs", okn, kind="correspondence")
     if not okn:
         items.setdefault("fastpoly", ctx.broken("correspondence:Poly:numpy-context", json.dumps(detail, default=str)))
